@@ -40,7 +40,7 @@ Definition p_value (t : text) : option value :=
     else if Byte.eqb c "i"%byte then option_map VInt (p_Z r)
     else if Byte.eqb c "b"%byte then option_map VBytes (p_bytes r)
     else if Byte.eqb c "d"%byte then option_map VDate (p_date r)
-    else if Byte.eqb c "c"%byte then option_map VStr (p_str r)      (* a decimal.Decimal, as its text: a decimal element is Unmodelled *)
+    else if Byte.eqb c "c"%byte then option_map VStr (p_str r)      (* a decimal.Decimal, as its text str(d): model/Dec.v *)
     else None
   | [] => None
   end.
